@@ -216,6 +216,15 @@ var c19Faults = []struct {
 	{"double-brace-closed-once", "{{$x}", 0},
 	{"double-brace-closed-once-selfclosing", "{{call .zz /}", 0},
 	{"double-brace-closed-once-css", "{{css c}", 0},
+	// tags cut off by the end of their line: the scanner skips blanks (and line breaks) looking for what must follow
+	{"literal-cut-by-line-end", "text {literal", 0},
+	{"header-param-cut-by-line-end", "{@param foo", 0},
+	{"header-param-cut-by-line-end-2", "{@param? foo  ", 0},
+	// checks made after a whole block has been read
+	{"content-outside-plural-multiline", "{msg desc=\"d\"}\nstray\n{plural 1}\n{case 1}one\n{default}other\n{/plural}\n{/msg}", 0},
+	// stray text between the params of a call / the cases of a switch, on a line of its own
+	{"stray-text-in-call-multiline", "{call .zz}\n{param j: 1 /}\nstray\n\n\n{param k: 2 /}\n{/call}", 2},
+	{"stray-text-in-switch-multiline", "{switch 1}\n{case 1}a\n{/switch}{switch 2}\n  stray\n\n{case 2}b\n{/switch}", 3},
 	{"double-brace-closed-once-multiline", "{{call .zz}}\n{{param k: 1 /}\n{{/call}}", 1},
 }
 
